@@ -6,7 +6,9 @@
 (*     kind "policy" (an endpoint declaration: ms = {its method}) or "flow" (a flow filter: *)
 (*     ms = its methods, {} = no method constraint), p = the configured URL pattern          *)
 (*     (UrlPattern: <<host, path>>).                                                         *)
-(* A request [m, u, ts]: method, URL, ts = the URL text ends with an extra "/".              *)
+(* A request [m, u, var]: method, URL, var = how the URL text was spelled: "" canonically,   *)
+(*     "ts" with an extra "/" at the end, "uc" with the host in upper case, "dot" with a "."  *)
+(*     after the host.  Several items may share one URL (flows with different method lists). *)
 (* Observed for a request: [engine, proxy, manageAll]                                        *)
 (*     engine    = set of item names the ENGINE itself matched the request to                *)
 (*     proxy     = the request is found by one of the expressions registered with the proxy *)
@@ -26,15 +28,15 @@ Managed(obs) == obs.proxy \/ obs.manageAll
 
 NoBypass(obs) == obs.engine # {} => Managed(obs)
 
-Spells(it, rq) == ~rq.ts /\ MethodOK(it, rq.m) /\ MatchesStrict(it.p, rq.u)
+Spells(it, rq) == rq.var = "" /\ MethodOK(it, rq.m) /\ MatchesStrictX(it.p, rq.u)
 Literal(items, rq, obs) == (\E it \in items : Spells(it, rq)) => Managed(obs)
 
 Accept(items, rq, obs) == NoBypass(obs) /\ Literal(items, rq, obs)
 
 (* Known-finding class "trailing-slash" (recorded with bin/kf, not part of the property):   *)
-(* the engine trims a trailing "/" from the request URL before matching, the expression of  *)
-(* a URL without wildcard ends in "$" right after the last segment.                          *)
-TrailingSlashClass(items, rq, obs) == rq.ts /\ obs.engine # {} /\ ~Managed(obs)
+(* the engine trims trailing "/" and "." from the request URL before matching, the          *)
+(* expression of a URL without wildcard ends in "$" right after the last segment.            *)
+TrailingSlashClass(items, rq, obs) == rq.var \in {"ts", "dot"} /\ obs.engine # {} /\ ~Managed(obs)
 
 Verdict(items, rq, obs) == IF Accept(items, rq, obs) THEN "ok"
                            ELSE IF TrailingSlashClass(items, rq, obs) THEN "trailing-slash" ELSE "bad"
